@@ -7,7 +7,7 @@
 //! taken from `bitcoin_hashes` (a trusted primitive); tags, IVs, orderings and the word
 //! construction are re-derived here.
 
-use simplicity::hashes::{sha256, Hash, HashEngine};
+use simplicity::hashes::{sha256, HashEngine};
 
 pub type Root = [u8; 32];
 
